@@ -111,7 +111,13 @@ class NewGen:
         if self.rng.random() < opts.get("underscore", 0.1):
             extra.append("_hidden")
         if self.rng.random() < opts.get("keyword", 0.01):
-            extra.append(self.rng.choice(KEYWORD_NAMES))
+            kw = self.rng.choice(KEYWORD_NAMES)
+            extra.append(kw)
+            if self.rng.random() < 0.5:
+                # a second field that camel-cases to the SAME keyword: `Type` next to `type_` (keyword escape + collision suffix)
+                twin = kw.rstrip("_").lower() + "_" if not kw.endswith("_") else kw.rstrip("_").capitalize()
+                if twin != kw:
+                    extra.append(twin)
         names = self.names(nm, extra, depth)
         if depth > 0 and self.rng.random() < opts.get("nested_underscore", 0.0):
             names.append("_inner")
@@ -192,11 +198,12 @@ def _norm(n):
     return n.lower().replace("_", "")
 
 
-def companion(rng, s, cid, same_names=True):
+def companion(rng, s, cid, same_names=True, share_shoot=False):
     """Types to be processed BEFORE `s` in the same invocation (multi-type run). Whatever they carry -- type parameters,
     `new` marks, defaults, accessor restrictions, accessors promoted from an embedded shoot type, fields named like
     the fields of `s` -- must not reach `s`: the expected behaviour of `s` is that of a run on `s` alone.
-    Returns (struct specs to declare, type names to list first)."""
+    Returns (struct specs to declare, type names to list first[, type names to list after the embedded shoot types of s]).
+    share_shoot: when `s` embeds a shoot type, the companion may embed THAT type too (second embedder in one run)."""
     tag = "".join(ch for ch in cid if ch.isalnum())
 
     def F(name, ty="int", **kw):
@@ -210,7 +217,27 @@ def companion(rng, s, cid, same_names=True):
                 seen.add(_norm(m["name"]))
                 names.append(m["name"])
     rng.shuffle(names)
-    half = len(names) // 2
+    shared = None
+    if share_shoot and same_names:
+        cands = [m for m in s["members"] if m["k"] == "e" and m.get("shoot") and not m["decl"].get("tparams") and not m.get("targs")]
+        if cands and rng.random() < 0.6:
+            shared = rng.choice(cands)
+    if shared:
+        # an own field named like a field of the shared shoot type would declare an accessor twice in the companion itself
+        taken = set()
+
+        def collect(d):
+            for m in d["members"]:
+                if m["k"] == "f":
+                    taken.add(_norm(m["name"]))
+                    taken.add("set" + _norm(m["name"]))
+                else:
+                    taken.add(_norm(m["decl"]["name"]))
+                    collect(m["decl"])
+        collect(shared["decl"])
+        taken.add(_norm(shared["decl"]["name"]))
+        names = [n for n in names if _norm(n) not in taken and "set" + _norm(n) not in taken]
+    half = 0 if shared else len(names) // 2
     base = {"name": "Zb" + tag, "tparams": [], "typedoc": None,
             "members": [F(n, "int") for n in names[:half]] + [F("zq" + tag, "string")]}
     own = []
@@ -220,10 +247,15 @@ def companion(rng, s, cid, same_names=True):
                                   else {"set": True} if kind == 2 else {"def": "242"})))
     own.append(F("zk" + tag, "K"))
     own.append(F("zv" + tag, "V", new=True))
-    comp = {"name": "Zc" + tag, "tparams": [(["K"], "comparable"), (["V"], "any")], "typedoc": None,
-            "members": ([{"k": "e", "ptr": rng.random() < 0.3, "new": False, "pkg": None, "decl": base}] if same_names else []) + own}
+    if shared:
+        emb = [{"k": "e", "ptr": rng.random() < 0.5, "new": False, "pkg": None, "decl": shared["decl"], "shoot": True}]
+    else:
+        emb = [{"k": "e", "ptr": rng.random() < 0.3, "new": False, "pkg": None, "decl": base}] if same_names else []
+    comp = {"name": "Zc" + tag, "tparams": [(["K"], "comparable"), (["V"], "any")], "typedoc": None, "members": emb + own}
     # (-opt -short names option functions by field only: no field may then occur in two types, promoted ones included)
-    return [comp], ([base["name"]] if same_names else []) + [comp["name"]]
+    if shared:
+        return [comp], [], [comp["name"]]
+    return [comp], ([base["name"]] if same_names else []) + [comp["name"]], []
 
 
 def getset_neutral(s):
